@@ -1,6 +1,6 @@
 #!/bin/bash
 # runs every registered check (quick by default) and summarises; usage: runall.sh [quick|thorough] [ids...]
-cd /verif
+cd "$(dirname "$(readlink -f "$0")")"
 tier=${1:-quick}; shift
 ids=${@:-C01 C02 C03 C04 C05 C06 C07 C08 C09 C10 C11 C12 C13 C14 C15 C16 C17 C18 C19 C20}
 fail=0
